@@ -213,6 +213,9 @@ def execute(stim):
                 rec(etype if ok else etype + '_baddata', _sid(data.get('state')), 0, 0,
                     _sid(data.get('value')))
 
+    # every third definition runs as a persistent block (chosen by the content: no extra stimulus field)
+    persist = sum(len(repr(x)) for x in stim['seq']) % 3 == 0
+
     def build(circuit):
         Probe('probe')
         cls = type('GenFSM', (edzed.FSM,), ns)
@@ -226,6 +229,8 @@ def execute(stim):
             kw['on_notrans'] = edzed.Event('probe', 'notrans')
         if cfg['on_output']:
             kw['on_output'] = edzed.Event('probe', 'out')
+        if persist:
+            kw['persistent'] = True     # (another layer between the caller and the FSM's handler)
         fsm = cls('fsm', **kw)
         holder['fsm'] = fsm
         edzed.Not('keepalive').connect(fsm)
@@ -274,7 +279,7 @@ def execute(stim):
             if circuit.error is not None:
                 return
 
-    rt.run_circuit(build, script)
+    rt.run_circuit(build, script, storage={} if persist else None)
     return {'hdr': cfg, 'ev': lines}
 
 
